@@ -319,7 +319,8 @@ def refine(kind: str, our: dict, side: dict, ps, obs, pc: dict) -> str:
     both4 = ps is not None and bool(ps['asn4_all']) and bool(side['summary']['asn4_all'])
     if both4 and ps['asn'] != wire.AS_TRANS and ps['asn'] not in ps['asn4_all']:
         # two NEW speakers, the 2-octet field is neither AS_TRANS nor the capability value
-        if kind == 'param:peer_as' or kind.startswith('wrong-subcode:peer-as:') or (kind.startswith('not-refused:') and 'peer-as' in kind):
+        faults = kind.split(':')[1].split('+') if kind.startswith(('wrong-subcode:', 'not-refused:')) else []
+        if kind == 'param:peer_as' or 'peer-as' in faults:
             return 'peer-as:asn4-cap-ignored-when-field-not-astrans'
     if kind == 'not-refused:rid-collision-ibgp' and both4 and ps['asn'] == wire.AS_TRANS:
         # the peer is internal by its ASN4 capability value while its 2-octet field holds AS_TRANS
